@@ -24,8 +24,11 @@ def tuple_parts(t):
 
 
 class IoProgram(Program):
+    nt_text = None       # MIR of rlib_num_traits (for associated constants that are not already folded into the io MIR)
+
     def __init__(self, text):
         Program.__init__(self, text, 'io')
+        self.nt_fns = None
         self.readable = {}   # return type (as printed) -> Fn
         self.writable = {}   # self type -> Fn
         self.reader_fns = {}
@@ -114,6 +117,21 @@ class IoProgram(Program):
                     v = m.run(f, [], {})
                     self.const_cache[s] = v
                     return v
+        mm = re.match(r"^<(\w+) as rlib_num_traits::FixedSizeInteger>::BASE_10_LEN$", s)
+        if mm:
+            if self.nt_fns is None:
+                if not IoProgram.nt_text:
+                    raise Unsupported('associated constant of rlib_num_traits needed but its MIR was not provided: ' + s)
+                from .core import parse_mir
+                self.nt_fns = parse_mir(IoProgram.nt_text)
+            t = mm.group(1)
+            ut = t if t[0] == 'u' else 'u' + t[1:]
+            cands = [f for f in self.nt_fns if f.name.endswith('::BASE_10_LEN') and f.types.get('_1') == ut]
+            if not cands:
+                raise Unsupported('BASE_10_LEN for %s not found in the MIR of rlib_num_traits' % t)
+            v = m.run(cands[0], [], {})
+            self.const_cache[s] = v
+            return v
         mm = re.match(r"^<(\w+) as (?:writer::)?Writable>::write::promoted\[(\d+)\]$", s)
         if mm:
             f = self.find_promoted(fr.fn, s)
@@ -202,6 +220,14 @@ def install_models(P):
         vals = [sl.get(i) for i in range(s, e)]
         for i, v in enumerate(vals):
             sl.set(d + i, v)
+        return []
+
+    @M(r'^core::slice::<impl \[\w+\]>::reverse$', regex=True)
+    def _(m, fr, a, _m):
+        sl = as_slice(a[0])
+        vals = sl.values()[::-1]
+        for i, v in enumerate(vals):
+            sl.set(i, v)
         return []
 
     @M('core::slice::<impl [u8]>::copy_from_slice')
